@@ -1,0 +1,148 @@
+//go:build verif
+
+// Machine-checked contracts for this package (comment-only; compiled only under the
+// build tag `verif`, where it still contains no code). Checked by /verif/govc.
+package keeper
+
+// Every stored order sits under its own id.
+//@ rowinv C20/spotOrderKey table tradeshield:types.PendingSpotOrderKey/keeper.GetPendingSpotOrderIDBytes row types.SpotOrder : row.OrderId == key0
+//@ rowinv C20/perpOrderKey table tradeshield:types.PendingPerpetualOrderKey/keeper.GetPendingPerpetualOrderIDBytes row types.PerpetualOrder : row.OrderId == key0
+
+// ---- spot orders ---------------------------------------------------------------------------------
+
+//@ func (msgServer).UpdateSpotOrder
+//@ forall a Addr
+//@ forall d Str
+//@ letold o := fst(k.GetPendingSpotOrder(goCtx, msg.OrderId))
+//@ ensures C17,C20/owner-only: err == nil ==> o.OwnerAddress == msg.OwnerAddress
+//@ ensures C20/update-moves-no-funds: err == nil ==> bal(goCtx, a, d) == old(bal(goCtx, a, d))
+//@ ensures C20/update-keeps-owner-and-amount: err == nil ==> fst(k.GetPendingSpotOrder(goCtx, msg.OrderId)).OwnerAddress == o.OwnerAddress && fst(k.GetPendingSpotOrder(goCtx, msg.OrderId)).OrderAmount == o.OrderAmount && fst(k.GetPendingSpotOrder(goCtx, msg.OrderId)).OrderId == o.OrderId
+
+//@ func (msgServer).CancelSpotOrder
+//@ forall a Addr
+//@ forall d Str
+//@ letold o := fst(k.GetPendingSpotOrder(goCtx, msg.OrderId))
+//@ requires unbech32(fst(k.GetPendingSpotOrder(goCtx, msg.OrderId)).OwnerAddress) != types.GetSpotOrderAddress(msg.OrderId)
+//@ ensures C17,C20/owner-only: err == nil ==> o.OwnerAddress == msg.OwnerAddress
+//@ ensures C20/cancel-returns-full-escrow: err == nil ==> bal(goCtx, unbech32(o.OwnerAddress), d) == old(bal(goCtx, unbech32(o.OwnerAddress), d) + bal(goCtx, types.GetSpotOrderAddress(msg.OrderId), d))
+//@ ensures C20/cancel-empties-escrow: err == nil ==> bal(goCtx, types.GetSpotOrderAddress(msg.OrderId), d) == 0
+//@ ensures C20/cancel-removes-order: err == nil ==> !snd(k.GetPendingSpotOrder(goCtx, msg.OrderId))
+//@ ensures C20/cancel-touches-nobody-else: err == nil && a != unbech32(o.OwnerAddress) && a != types.GetSpotOrderAddress(msg.OrderId) ==> bal(goCtx, a, d) == old(bal(goCtx, a, d))
+
+//@ func (msgServer).CancelSpotOrders
+//@ forall a Addr
+//@ forall d Str
+//@ bound SpotOrderIds 2
+//@ requires allOf(msg.SpotOrderIds, i, unbech32(fst(k.GetPendingSpotOrder(goCtx, i)).OwnerAddress) != types.GetSpotOrderAddress(i))
+//@ ensures C17,C20/batch-owner-only: err == nil ==> allOf(msg.SpotOrderIds, i, old(fst(k.GetPendingSpotOrder(goCtx, i)).OwnerAddress) == msg.Creator)
+//@ ensures C20/batch-cancel-touches-nobody-else: err == nil && a != unbech32(msg.Creator) && allOf(msg.SpotOrderIds, i, a != types.GetSpotOrderAddress(i)) ==> bal(goCtx, a, d) == old(bal(goCtx, a, d))
+
+//@ func (msgServer).CreateSpotOrder
+//@ forall a Addr
+//@ forall d Str
+//@ requires isUser(unbech32(msg.OwnerAddress))
+//@ requires msg.OrderAmount.Amount >= 0
+//@ ensures C20/create-escrows-exactly-the-order-amount: err == nil && msg.OrderType != types.SpotOrderType_MARKETBUY ==> bal(goCtx, types.GetSpotOrderAddress(result0.OrderId), d) == old(bal(goCtx, types.GetSpotOrderAddress(result0.OrderId), d)) + ite(d == msg.OrderAmount.Denom, msg.OrderAmount.Amount, 0) && bal(goCtx, unbech32(msg.OwnerAddress), d) == old(bal(goCtx, unbech32(msg.OwnerAddress), d)) - ite(d == msg.OrderAmount.Denom, msg.OrderAmount.Amount, 0)
+//@ ensures C20/create-records-the-owner: err == nil && msg.OrderType != types.SpotOrderType_MARKETBUY ==> fst(k.GetPendingSpotOrder(goCtx, result0.OrderId)).OwnerAddress == msg.OwnerAddress && snd(k.GetPendingSpotOrder(goCtx, result0.OrderId))
+//@ ensures C20/create-touches-nobody-else: err == nil && a != unbech32(msg.OwnerAddress) && a != types.GetSpotOrderAddress(result0.OrderId) ==> bal(goCtx, a, d) == old(bal(goCtx, a, d))
+
+// The market price is what this module's own price function returns (it may set the amm
+// module's per-block pool snapshot, nothing else).
+//@ func (Keeper).GetAssetPriceFromDenomInToDenomOut
+//@ modifies module:amm
+//@ frame-only
+
+// Executing a stop-loss / limit order: the escrow goes back to the owner and the swap is only
+// enqueued; whatever the outcome (the caller logs errors and goes on), the owner's wallet plus
+// the escrow is conserved and nobody else's balance moves; nothing moves unless triggered.
+//@ func (Keeper).ExecuteStopLossOrder
+//@ forall a Addr
+//@ forall d Str
+//@ requires isUser(unbech32(order.OwnerAddress))
+//@ ensures C20/funds-conserved-on-every-exit: bal(ctx, unbech32(order.OwnerAddress), d) + bal(ctx, order.GetOrderAddress(), d) == old(bal(ctx, unbech32(order.OwnerAddress), d) + bal(ctx, order.GetOrderAddress(), d))
+//@ ensures C20/nobody-else-moves: a != unbech32(order.OwnerAddress) && a != order.GetOrderAddress() ==> bal(ctx, a, d) == old(bal(ctx, a, d))
+//@ ensures C20/only-when-triggered: bankTouched(ctx) ==> fst(resultOf("GetAssetPriceFromDenomInToDenomOut", 1)) <= order.OrderPrice.Rate
+//@ ensures C20/order-removed-only-after-execution: !snd(k.GetPendingSpotOrder(ctx, order.OrderId)) && old(snd(k.GetPendingSpotOrder(ctx, order.OrderId))) ==> err == nil && bankTouched(ctx)
+
+//@ func (Keeper).ExecuteLimitSellOrder
+//@ forall a Addr
+//@ forall d Str
+//@ requires isUser(unbech32(order.OwnerAddress))
+//@ ensures C20/funds-conserved-on-every-exit: bal(ctx, unbech32(order.OwnerAddress), d) + bal(ctx, order.GetOrderAddress(), d) == old(bal(ctx, unbech32(order.OwnerAddress), d) + bal(ctx, order.GetOrderAddress(), d))
+//@ ensures C20/nobody-else-moves: a != unbech32(order.OwnerAddress) && a != order.GetOrderAddress() ==> bal(ctx, a, d) == old(bal(ctx, a, d))
+//@ ensures C20/only-when-triggered: bankTouched(ctx) ==> fst(resultOf("GetAssetPriceFromDenomInToDenomOut", 1)) >= order.OrderPrice.Rate
+//@ ensures C20/order-removed-only-after-execution: !snd(k.GetPendingSpotOrder(ctx, order.OrderId)) && old(snd(k.GetPendingSpotOrder(ctx, order.OrderId))) ==> err == nil && bankTouched(ctx)
+
+//@ func (Keeper).ExecuteLimitBuyOrder
+//@ forall a Addr
+//@ forall d Str
+//@ requires isUser(unbech32(order.OwnerAddress))
+//@ ensures C20/funds-conserved-on-every-exit: bal(ctx, unbech32(order.OwnerAddress), d) + bal(ctx, order.GetOrderAddress(), d) == old(bal(ctx, unbech32(order.OwnerAddress), d) + bal(ctx, order.GetOrderAddress(), d))
+//@ ensures C20/nobody-else-moves: a != unbech32(order.OwnerAddress) && a != order.GetOrderAddress() ==> bal(ctx, a, d) == old(bal(ctx, a, d))
+//@ ensures C20/only-when-triggered: bankTouched(ctx) ==> fst(resultOf("GetAssetPriceFromDenomInToDenomOut", 1)) <= order.OrderPrice.Rate
+//@ ensures C20/order-removed-only-after-execution: !snd(k.GetPendingSpotOrder(ctx, order.OrderId)) && old(snd(k.GetPendingSpotOrder(ctx, order.OrderId))) ==> err == nil && bankTouched(ctx)
+
+// ---- perpetual orders -------------------------------------------------------------------------------
+
+//@ func (Keeper).GetPendingPerpetualOrdersForAddress
+//@ modifies nothing
+//@ frame-only
+
+//@ func (msgServer).UpdatePerpetualOrder
+//@ forall a Addr
+//@ forall d Str
+//@ letold o := fst(k.GetPendingPerpetualOrder(goCtx, msg.OrderId))
+//@ ensures C17,C20/owner-only: err == nil ==> o.OwnerAddress == msg.OwnerAddress
+//@ ensures C20/update-moves-no-funds: err == nil ==> bal(goCtx, a, d) == old(bal(goCtx, a, d))
+//@ ensures C20/update-keeps-owner-and-collateral: err == nil ==> fst(k.GetPendingPerpetualOrder(goCtx, msg.OrderId)).OwnerAddress == o.OwnerAddress && fst(k.GetPendingPerpetualOrder(goCtx, msg.OrderId)).Collateral == o.Collateral && fst(k.GetPendingPerpetualOrder(goCtx, msg.OrderId)).OrderId == o.OrderId
+
+//@ func (msgServer).CancelPerpetualOrder
+//@ forall a Addr
+//@ forall d Str
+//@ letold o := fst(k.GetPendingPerpetualOrder(goCtx, msg.OrderId))
+//@ requires isUser(unbech32(fst(k.GetPendingPerpetualOrder(goCtx, msg.OrderId)).OwnerAddress))
+//@ ensures C17,C20/owner-only: err == nil ==> o.OwnerAddress == msg.OwnerAddress
+//@ ensures C20/cancel-returns-the-collateral: err == nil ==> bal(goCtx, unbech32(o.OwnerAddress), d) == old(bal(goCtx, unbech32(o.OwnerAddress), d)) + ite(d == o.Collateral.Denom, o.Collateral.Amount, 0) && bal(goCtx, types.GetPerpOrderAddress(msg.OrderId), d) == old(bal(goCtx, types.GetPerpOrderAddress(msg.OrderId), d)) - ite(d == o.Collateral.Denom, o.Collateral.Amount, 0)
+//@ ensures C20/cancel-removes-order: err == nil ==> !snd(k.GetPendingPerpetualOrder(goCtx, msg.OrderId))
+//@ ensures C20/cancel-touches-nobody-else: err == nil && a != unbech32(o.OwnerAddress) && a != types.GetPerpOrderAddress(msg.OrderId) ==> bal(goCtx, a, d) == old(bal(goCtx, a, d))
+
+//@ func (msgServer).CreatePerpetualOpenOrder
+//@ bound !r0 1
+//@ forall a Addr
+//@ forall d Str
+//@ requires isUser(unbech32(msg.OwnerAddress))
+//@ requires msg.Collateral.Amount >= 0
+//@ ensures C20/create-escrows-exactly-the-collateral: err == nil ==> bal(goCtx, types.GetPerpOrderAddress(result0.OrderId), d) == old(bal(goCtx, types.GetPerpOrderAddress(result0.OrderId), d)) + ite(d == msg.Collateral.Denom, msg.Collateral.Amount, 0) && bal(goCtx, unbech32(msg.OwnerAddress), d) == old(bal(goCtx, unbech32(msg.OwnerAddress), d)) - ite(d == msg.Collateral.Denom, msg.Collateral.Amount, 0)
+//@ ensures C20/create-records-the-owner: err == nil ==> fst(k.GetPendingPerpetualOrder(goCtx, result0.OrderId)).OwnerAddress == msg.OwnerAddress && fst(k.GetPendingPerpetualOrder(goCtx, result0.OrderId)).Collateral == msg.Collateral
+//@ ensures C20/create-touches-nobody-else: err == nil && a != unbech32(msg.OwnerAddress) && a != types.GetPerpOrderAddress(result0.OrderId) ==> bal(goCtx, a, d) == old(bal(goCtx, a, d))
+
+// Execution of a limit-open order. Skipped (trigger not met) or failing before the refund:
+// nothing moves. (What happens when perpetual.Open fails after the refund is the subject of
+// the not-claimed clause funds-conserved-on-failed-open, see DESIGN.md.)
+//@ func (Keeper).ExecuteLimitOpenOrder
+//@ forall a Addr
+//@ forall d Str
+//@ requires isUser(unbech32(order.OwnerAddress))
+//@ ensures C20/untouched-unless-triggered-long: order.Position == types.PerpetualPosition_LONG && fst(resultOf("GetAssetPrice", 1)) > order.TriggerPrice.Rate ==> !wrote(ctx)
+//@ ensures C20/untouched-unless-triggered-short: order.Position == types.PerpetualPosition_SHORT && fst(resultOf("GetAssetPrice", 1)) < order.TriggerPrice.Rate ==> !wrote(ctx)
+//@ ensures C20/price-failure-touches-nothing: !called("Open", 1) && err != nil && !bankTouched(ctx) ==> !wrote(ctx)
+//@ ensures C20/funds-conserved-on-failed-open: err != nil ==> bal(ctx, unbech32(order.OwnerAddress), d) + bal(ctx, order.GetOrderAddress(), d) == old(bal(ctx, unbech32(order.OwnerAddress), d) + bal(ctx, order.GetOrderAddress(), d))
+
+//@ func (msgServer).CancelPerpetualOrders
+//@ forall a Addr
+//@ forall d Str
+//@ bound OrderIds 2
+//@ requires allOf(msg.OrderIds, i, isUser(unbech32(fst(k.GetPendingPerpetualOrder(goCtx, i)).OwnerAddress)))
+//@ ensures C17,C20/batch-owner-only: err == nil ==> allOf(msg.OrderIds, i, old(fst(k.GetPendingPerpetualOrder(goCtx, i)).OwnerAddress) == msg.OwnerAddress)
+//@ ensures C20/batch-cancel-touches-nobody-else: err == nil && a != unbech32(msg.OwnerAddress) && allOf(msg.OrderIds, i, a != types.GetPerpOrderAddress(i)) ==> bal(goCtx, a, d) == old(bal(goCtx, a, d))
+
+// A batch execution request from anyone: with spot orders only, no balance moves except
+// between a listed order's escrow and that order's owner.
+//@ func (msgServer).ExecuteOrders
+//@ forall a Addr
+//@ forall d Str
+//@ bound SpotOrderIds 2
+//@ bound PerpetualOrderIds 1
+//@ requires allOf(msg.SpotOrderIds, i, isUser(unbech32(fst(k.GetPendingSpotOrder(goCtx, i)).OwnerAddress)))
+//@ ensures C20/spot-batch-moves-only-escrow-to-owner: len(msg.PerpetualOrderIds) == 0 && allOf(msg.SpotOrderIds, i, a != unbech32(old(fst(k.GetPendingSpotOrder(goCtx, i)).OwnerAddress)) && a != types.GetSpotOrderAddress(i)) ==> bal(goCtx, a, d) == old(bal(goCtx, a, d))
+//@ ensures C20/spot-batch-conserves-each-owner: len(msg.PerpetualOrderIds) == 0 && len(msg.SpotOrderIds) == 1 ==> bal(goCtx, unbech32(old(fst(k.GetPendingSpotOrder(goCtx, msg.SpotOrderIds[0])).OwnerAddress)), d) + bal(goCtx, types.GetSpotOrderAddress(msg.SpotOrderIds[0]), d) == old(bal(goCtx, unbech32(fst(k.GetPendingSpotOrder(goCtx, msg.SpotOrderIds[0])).OwnerAddress), d) + bal(goCtx, types.GetSpotOrderAddress(msg.SpotOrderIds[0]), d))
